@@ -27,8 +27,10 @@ def rebase_patch(dst):
 
 pid = sys.argv[1]
 nocheck = "--no-check" in sys.argv
-for m in sorted(glob.glob("/tmp/mw/%s/_mutants/m*" % pid)):
-    name = os.path.basename(m)
+root = sys.argv[sys.argv.index("--root") + 1] if "--root" in sys.argv else "/tmp/mw"
+prefix = sys.argv[sys.argv.index("--prefix") + 1] if "--prefix" in sys.argv else ""
+for m in sorted(glob.glob("%s/%s/_mutants/m*" % (root, pid))):
+    name = prefix + os.path.basename(m)
     dst = "/verif/seeded/%s/%s" % (pid, name)
     if not os.path.exists(os.path.join(dst, "meta.json")):
         c = subprocess.run(["/verif/bin/confirm_mutant.sh", m], stdout=subprocess.PIPE, stderr=subprocess.STDOUT, text=True)
